@@ -30,9 +30,17 @@ CHECKS["C10"] = {"category": "proof",
   "text": "CBinaryStreamReader (every public method + constructor) is proved from an arbitrary well-formed state against an abstract view (stream contents, logical position) that does not mention the 256-byte chunk: each method re-establishes the class invariant and hands out exactly the bytes at the logical position, for every alignment of cursor/block relative to the chunk and every stream length; MsgPack memory and stream writers are proved against the same byte-exact specification. Stream readers of MsgPack/CSV are listed in the evidence when under the same contract.",
   "note": "istream model ([istream.unformatted] rules, stream initially at offset 0, no badbit); buffer contents followed by ghost state updated only by the read/memcpy models; JSON/XML stream paths are inside third-party libraries",
   "technique": _T + "class invariant + abstract-view postconditions on the real CBinaryStreamReader, ghost content tracking (R2, SAT)"}
+CHECKS["C14"] = {"category": "proof",
+  "text": "Proved over the full 64-bit domain: time_point/duration -> CBinTimestamp gives 0<=ns<=999999999 and sec*1e9+ns equal to the instant exactly, and converting back restores the identical tick count (6 units x time points and durations); every SafeDurationCast/SafeAddDuration instantiation returns the exact value or out_of_range. The calendar text itself (era/day-of-era arithmetic + printing + parsing back) defeats every installed back end and is decided by a BOUNDED native stand-in: every day of years -10400..+20000 for each of the 7 precisions against a day-by-day calendar (listed under 'bounded', not counted as proved).",
+  "note": "calendar rendering/parse-back is bounded (stated range); ISO duration text and PrintSecondsFractions digits are not under contract; cvc5 int-blasting trusted",
+  "technique": _T + "full-domain arithmetic contracts decided by cvc5 over the integers (VCs from CBMC); bounded native exhaustive stand-in for the calendar text"}
+CHECKS["C15"] = {"category": "proof",
+  "text": "All 72+ SafeDurationCast instantiations (8 units x 8 units, int64, plus int8/int16/int32/uint64 targets) and 13 SafeAddDuration instantiations are proved over their full domains to return exactly the mathematical value or raise std::out_of_range (never a wrapped or truncated value), and never to refuse a representable exact value. The date-time parts -> time_point arithmetic is attempted in the thorough tier; the grammar of ParseIsoUtc / duration parsing is not under contract yet.",
+  "note": "ParseIsoUtc, ParseSecondFractions and the duration grammar (text layer, from_chars) are not covered; cvc5 int-blasting trusted",
+  "technique": _T + "exact-or-out_of_range postconditions in __int128, VCs from CBMC decided by cvc5 --solve-bv-as-int"}
 _NR = "not reached yet in this round: the check is not built; see DESIGN.md §0 for the planned contracts"
 NOT_APPLICABLE = {
  "C08": "well-formedness and acceptance of JSON/XML text is decided inside RapidJSON and pugixml (third-party code outside /repo); no contract on /repo code can express it without a verified model of those libraries (DESIGN.md §4 C08)",
 }
-for _p in ["C01","C03","C05","C09","C13","C14","C15","C16","C17","C18","C19","C20"]:
+for _p in ["C01","C03","C05","C09","C13","C16","C17","C18","C19","C20"]:
     NOT_APPLICABLE.setdefault(_p, _NR)
